@@ -134,6 +134,22 @@ CLAIMED = {
         "the 'no schedule' reply and the shared EMPTY_PAYLOAD_SET list are not modelled.",
         "6 (C17)",
     ),
+    "C20": (
+        "Coq proof over the FINITE state space of a binding wait (one-step invariants decided by kernel computation over all 336 states x 5 events, lifted by induction to every history of instants) + correspondence with the real state classes on a virtual-time loop + two-ended handshake oracle",
+        "6 theorems in coq/props/C20.v about coq/model/M_Bind.v (= BindStateBase._wait_for_fut_result / _handle_wait_timer_expired / "
+        "_set_context_state, the states' call_later timers, rcvd_msg of the waiting states; the loop abstracted to instants with the "
+        "wake-up hop): for EVERY history a wait that ended, ended with the awaited message (context advanced) or BindingFlowFailed "
+        "(context DevHasFailedBinding = not binding, a new attempt may start) and nothing else; the wait is over in the instant its "
+        "timer fires; repeated copies of the awaited packet are no-ops; the pre-repair code is refuted with the witness. PARTIAL: the "
+        "role-level clauses (both ends report the same offer/accept/confirm under repeats; every attempt bounded; not binding "
+        "afterwards; retry works) are decided by the handshake oracle on real BindContexts over a delaying/repeating/losing medium, not "
+        "by theorems. Tie: ~100 (thorough 400) single-wait schedules with packets placed around the 5.0/5.1 s timers, both tie "
+        "policies, on the real state classes vs the model (outcome, successor state, loop exceptions).",
+        "Trusted: Coq kernel, harness (virtual loop, scripted medium routing packets as dispatcher.process_msg does). Modelled not "
+        "verified: asyncio wait_for/shield semantics as 'a time-out before the waiter runs yields TimeoutError'; sending abstracted to "
+        "echo-after-delay or ProtocolSendFailed; the vendor-specific code lists and the 10E0 ratify step only in the oracle.",
+        "6 (C20)",
+    ),
 }
 
 NOT_YET = "not claimed yet: the Coq model and correspondence harness for this property are not built in this revision (planned in DESIGN.md section 6)"
